@@ -130,6 +130,11 @@ def run(ctx, report):
                 kind, forced_sp = "g", True
             n = rng.choice([1, 2, 4, 7])
             offs = rng.choice([None, [0], [0, n // 2] if n > 1 else [0], 2, 3])
+            if h % 5 == 4 and step == 0:
+                # directed: a dataset with MORE THAN TEN part files, so that part numbers beyond 9 take part in every later numbering
+                n, offs = 12, list(range(12))
+            if h % 5 == 4 and step == 1:
+                kind = "a"
             null_key = False
             if nparts >= 2 and step == 1 and h % 5 == 3:
                 # directed: an append one of whose rows has a missing partition key (the row is dropped by the partitioning;
